@@ -203,7 +203,8 @@ pub fn parse_pnm(input: impl IntoIterator<Item = u8>) -> Result<Buf2<Color3>> {
     let mut it = input.into_iter();
     let h = Header::parse(&mut it)?;
 
-    let count = h.dims.0 * h.dims.1;
+    // The pixel count must not overflow (dimensions come from untrusted input)
+    let count = h.dims.0.checked_mul(h.dims.1).ok_or(InvalidNumber)?;
     let data: Vec<Color3> = match h.format {
         BinaryPixmap => {
             let mut col = [0u8; 3];
